@@ -885,9 +885,83 @@ fn gen_ctype(rng: &mut Rng, n: u64, emit: &mut dyn FnMut(Vec<String>)) {
     }
 }
 
+// ---------------------------------------------------------------- scalar header members (C02)
+
+/// texts of every lexical shape for the `TryFromHeaderValue` readers of `http/de.rs` (bool, i32, i64, String)
+fn gen_scalar(rng: &mut Rng, n: u64, emit: &mut dyn FnMut(Vec<String>)) {
+    let types = ["bool", "i32", "i64", "string"];
+    let words: [&[u8]; 16] = [b"true", b"True", b"TRUE", b"tRue", b"false", b"False", b"FALSE", b"0", b"1", b"yes", b"", b"t", b"true ", b" true", b"truee", b"fals"];
+    let bounds = ["0", "7", "2147483647", "2147483648", "2147483649", "4294967295", "4294967296", "9223372036854775807", "9223372036854775808", "18446744073709551615", "18446744073709551616", "99999999999999999999999"];
+    for ty in types {
+        for w in words {
+            emit(vec!["hscalar".into(), ty.into(), hx(w)]);
+        }
+        for b in bounds {
+            for sign in ["", "+", "-"] {
+                emit(vec!["hscalar".into(), ty.into(), hx(format!("{sign}{b}").as_bytes())]);
+            }
+        }
+    }
+    for _ in 0..n {
+        let ty = rng.pick(&types);
+        let mut t: Vec<u8> = Vec::new();
+        match rng.below(6) {
+            // a numeral: sign, leading zeros, digits
+            0 | 1 | 2 => {
+                t.extend_from_slice(rng.pick(&["", "", "", "+", "-", "+-", "--", "-+", "++"]).as_bytes());
+                for _ in 0..rng.pick(&[0u64, 0, 0, 1, 3, 25]) {
+                    t.push(b'0');
+                }
+                if rng.chance(1, 3) {
+                    t.extend_from_slice(rng.pick(&bounds).as_bytes());
+                } else {
+                    for _ in 0..rng.range(0, 22) {
+                        t.push(b'0' + rng.below(10) as u8);
+                    }
+                }
+            }
+            // a numeral with something before, inside or after it
+            3 => {
+                let g = rng.pick(&[" ", "\t", "a", ".", ".0", "e3", "_", ",", "\u{661}", "\u{ff11}", "x", "0x", "L", "i32", "+", "-", "\u{a0}", "\u{2212}"]);
+                let num = rng.pick(&["7", "12", "-3", "+5", "2147483647", "0"]);
+                match rng.below(3) {
+                    0 => {
+                        t.extend_from_slice(g.as_bytes());
+                        t.extend_from_slice(num.as_bytes());
+                    }
+                    1 => {
+                        t.extend_from_slice(num.as_bytes());
+                        t.extend_from_slice(g.as_bytes());
+                    }
+                    _ => {
+                        t.extend_from_slice(&num.as_bytes()[..1]);
+                        t.extend_from_slice(g.as_bytes());
+                        t.extend_from_slice(num.as_bytes());
+                    }
+                }
+            }
+            4 => t.extend_from_slice(rng.pick(&words)),
+            // any bytes: visible ASCII, TAB, controls, DEL, obs-text
+            _ => {
+                for _ in 0..rng.range(0, 12) {
+                    t.push(match rng.below(8) {
+                        0 => rng.below(32) as u8,
+                        1 => 127,
+                        2 => 128 + rng.below(128) as u8,
+                        3 => 9,
+                        _ => 32 + rng.below(95) as u8,
+                    });
+                }
+            }
+        }
+        emit(vec!["hscalar".into(), (*ty).into(), hx(&t)]);
+    }
+}
+
 fn generate(rng: &mut Rng, n: u64, tier: &str, emit: &mut dyn FnMut(Vec<String>)) {
     // n = number of random rounds per family (each round emits several lines)
     let r = (n / 16).max(1);
+    gen_scalar(rng, r * 2, emit);
     gen_range(rng, r * 3, emit);
     gen_ts(rng, r, tier, emit);
     gen_cs(rng, r, emit);
@@ -971,6 +1045,20 @@ fn evaluate(f: &[&str]) -> Vec<String> {
             };
             let t = c.format_to_string();
             vec![hx(t.as_bytes()), cs_res(&CopySource::parse(&t))]
+        }
+        "hscalar" => {
+            use s3s::verif_hooks::http::TryFromHeaderValue;
+            let t = unhx(f[2]);
+            match http::HeaderValue::from_bytes(&t) {
+                Err(_) => vec!["nohv".to_owned()],
+                Ok(v) => vec![match f[1] {
+                    "bool" => bool::try_from_header_value(&v).map_or("err".to_owned(), |b| format!("ok:{b}")),
+                    "i32" => i32::try_from_header_value(&v).map_or("err".to_owned(), |n| format!("ok:{n}")),
+                    "i64" => i64::try_from_header_value(&v).map_or("err".to_owned(), |n| format!("ok:{n}")),
+                    "string" => String::try_from_header_value(&v).map_or("err".to_owned(), |s| format!("ok:{}", hx(s.as_bytes()))),
+                    _ => "badtype".to_owned(),
+                }],
+            }
         }
         "ctype" => {
             fn show(m: &ContentType) -> String {
